@@ -9,7 +9,7 @@ From Verif Require Import c05.Proofs_LimiterMon c05.Proofs_WorkerMon c05.Proofs_
 From Verif Require Import c05.ModelSync c05.SpecSync c05.Proofs_Sync c05.SpecDialPeer.
 From Verif Require Import c05.ModelComposite c05.SpecComposite c05.Proofs_Composite c05.Proofs_Composite2 c05.Proofs_Composite3.
 From Verif Require Import c05.Proofs_Composite4 c05.Proofs_Composite5 c05.Proofs_Composite6 c05.Proofs_CompositeMon.
-From Verif Require Import c05.ModelAddrs c05.Proofs_Addrs.
+From Verif Require Import c05.ModelAddrs c05.SpecAddrs c05.Proofs_Addrs.
 From Verif Require Import c05.Proofs_CompositeHI c05.Proofs_CompositeMon5 c05.Proofs_CompositeQ c05.Proofs_CompositeMon6 c05.Proofs_CompositeMon8.
 Import ListNotations.
 Local Open Scope Z_scope.
@@ -348,6 +348,25 @@ Theorem c05_addrs_for_dial_sound_complete : forall keep es a,
 Proof. intros. split; [apply addrs_for_dial_sound_l | intros; eapply addrs_for_dial_complete_l; eauto]. Qed.
 Print Assumptions c05_addrs_for_dial_sound_complete.
 
+(* filterKnownUndialables, in the code's order (no transport; low priority AMONG THE DIALABLE ones;
+   unspecified; relayed under ForceDirectDial), for every table of address attributes and every
+   peerstore content: an address is handed to the worker iff some entry resolves to it, the swarm
+   has a transport for it, its IP is not unspecified, it is not a relayed address under
+   ForceDirectDial, and it is not a /ws (/webtransport) address with a DIALABLE /tcp (/quic-v1)
+   address of the same ip:port among the resolved ones; each once.  The addresses reported with
+   an error are exactly the resolved ones without a transport.  SpecAddrs.should_dial is the
+   very predicate the monitor of wire kind 6 evaluates on the implementation's answers. *)
+Theorem c05_addrs_pipeline_spec : forall info fdir es a,
+  In a (fst (addrs_pipeline info fdir es)) <-> should_dial info fdir (strip_p2p (resolve_all es)) a = true.
+Proof. exact pipeline_spec_l. Qed.
+Print Assumptions c05_addrs_pipeline_spec.
+
+Theorem c05_addrs_pipeline_once_and_errors : forall info fdir es,
+  NoDup (fst (addrs_pipeline info fdir es)) /\ NoDup (snd (addrs_pipeline info fdir es)) /\
+  forall a, In a (snd (addrs_pipeline info fdir es)) <-> In a (strip_p2p (resolve_all es)) /\ ai_tpt (info a) = false.
+Proof. intros. destruct (pipeline_nodup_l info fdir es). split; [assumption|]. split; [assumption|]. apply pipeline_errs_l. Qed.
+Print Assumptions c05_addrs_pipeline_once_and_errors.
+
 (* ---- non-vacuity ----------------------------------------------------------------- *)
 (* the history of the repaired defect reaches a state with a queued live job and
    the FD cap exactly saturated *)
@@ -464,3 +483,16 @@ Proof. vm_compute. split; reflexivity. Qed.
 Example dialpeer_monitor_rejects_duplicate_ranking :
   monitor_d_case [1; 1; 0;  1; 1; 0; 0; 1; 2; 7; 250000000; 7; 250000000;  0; 2; 7; 7; 0; 0; 2; 0; 1; 1; 0; 1] = [ERR_PROPERTY; 0; 10].
 Proof. vm_compute. reflexivity. Qed.
+
+(* the order of the filters matters: a swarm with a WebSocket transport but no TCP transport, a
+   peer with /tcp (address 1) and /ws (address 2) on one ip:port.  In the code's order the /ws
+   address is dialed and the /tcp one reported; with the low-priority filter first the /ws
+   address is silently discarded and nothing is left to dial.  The monitor of kind 6 rejects
+   that answer (clause 3). *)
+Example addrs_filter_order_matters :
+  let info := fun a => if a =? 1 then mkAI CLS_TCP 7 false false false else mkAI CLS_WS 7 true false false in
+  known_undialables info false [1; 2] = ([2], [1]) /\
+  known_undialables_wrong info false [1; 2] = ([], [1]) /\
+  monitor_a_case [0; 2; 1; 1; 7; 0; 0; 0; 2; 2; 7; 1; 0; 0;  2; 1; 1; 0; 1; 2; 0;  0;  1; 1] = [ERR_PROPERTY; 0; 3] /\
+  monitor_a_case [0; 2; 1; 1; 7; 0; 0; 0; 2; 2; 7; 1; 0; 0;  2; 1; 1; 0; 1; 2; 0;  1; 2;  1; 1] = [].
+Proof. vm_compute. repeat split. Qed.
